@@ -31,11 +31,16 @@ def outputNode (v : Str) : Node := .elem "output".toList [("value".toList, v)] [
 /-- a text chunk as the reader reports it: absent when empty -/
 def chunk (stock : Bool) (s : Str) : List Node := if s.isEmpty then [] else [.text stock s]
 
+/-- `_var_repl_function` applied to what stands between `${` and `}`: a leading `last-saved#` is the
+    marker of `BRACKETED_TAG_REGEX`'s first group, the rest is the name -/
+def varReplName (refs : List (Str × Str)) (n : Str) : Option Str :=
+  if startsWith n lastSavedTag then varRepl refs true (n.drop lastSavedTag.length) else varRepl refs false n
+
 /-- the references of a cell resolved through `_var_repl_function`: `(value of the output, text after it)` -/
 def resolve (refs : List (Str × Str)) : List (Str × Str) → Option (List (Str × Str))
   | [] => some []
   | (n, t) :: rest =>
-    match varRepl refs false n, resolve refs rest with
+    match varReplName refs n, resolve refs rest with
     | some v, some items => some ((v, t) :: items)
     | _, _ => none
 
@@ -62,14 +67,28 @@ def hasDollarBrace : Str → Bool
 /-- literal text of a cell: XML characters, no `${` -/
 def TextOk (t : Str) : Prop := hasDollarBrace t = false ∧ ∀ c ∈ t, isXmlChar c = true
 
-/-- a reference name as `BRACKETED_TAG_REGEX` delimits it and `escape_text_for_xml` leaves it alone
-    (every XML name qualifies), not carrying the `last-saved#` marker -/
+/-- what stands between `${` and `}`, as `BRACKETED_TAG_REGEX` delimits it and `escape_text_for_xml`
+    leaves it alone: no `}`, LF, `&`, `<`, `>` (every XML name, with or without `last-saved#`, qualifies) -/
 def NameOk (n : Str) : Prop :=
-  (∀ c ∈ n, c ≠ '}' ∧ c ≠ '\n' ∧ c ≠ '&' ∧ c ≠ '<' ∧ c ≠ '>') ∧ startsWith n lastSavedTag = false
+  ∀ c ∈ n, c ≠ '}' ∧ c ≠ '\n' ∧ c ≠ '&' ∧ c ≠ '<' ∧ c ≠ '>'
 
 /-- an xpath as pyxform builds it from validated names: no markup characters, no TAB/LF/CR -/
 def ValOk (v : Str) : Prop :=
   ∀ c ∈ v, attrCharOk c = true ∧ c ≠ '&' ∧ c ≠ '<' ∧ c ≠ '>' ∧ c ≠ '"'
+
+/-- the children of a text-bearing element written as ONE string: text as it is, an element as
+    `\x00 attribute-values \x00` (for an `output`: its `value`); the check's oracle uses the same encoding -/
+def flatKids : List Node → Str
+  | [] => []
+  | .text _ s :: r => s ++ flatKids r
+  | .elem _ a _ :: r => Char.ofNat 0 :: ((a.map (·.2)).flatten ++ Char.ofNat 0 :: flatKids r)
+
+/-- a cell written the same way: literal chunks (line ends normalised) and `\x00 xpath \x00` per reference -/
+def flatItems : List (Str × Str) → Str
+  | [] => []
+  | (v, t) :: rest => Char.ofNat 0 :: (v ++ Char.ofNat 0 :: (normEol t ++ flatItems rest))
+
+def flatCell (head : Str) (items : List (Str × Str)) : Str := normEol head ++ flatItems items
 
 mutual
 /-- tags and attribute names, nothing else -/
